@@ -6,6 +6,12 @@ Tie:    the `minimize` seam (`optyx.solvers.scipy_solver.minimize`) is spied: th
         the Lean model (`autosel`, `route`, `gate`, `x0` of Optyx.Py.ScipyArgs — the definitions the
         C09 theorems are about); the captured callables (fun, jac, hess, each constraint's fun/jac)
         are probed at random points against *hand-written* NumPy closures from the generator.
+        Third family (`check_glue`): random problems over every node kind; the real
+        `_build_solver_cache(problem, V)` for the problem's own order, permutations and supersets V is
+        compared entry by entry (objective, gradient, closure kind, each constraint's type / fun / jac at
+        points) with the Lean model `Py.Glue.buildSolverCache` — the definition `scipy_inputs_faithful`
+        is about, itself driven by the glue tables regenerated from the source — and with the harness's
+        own interpreter / dual numbers.
 Oracle: the property's differential — generated strictly convex problems (QP and smooth
         non-quadratic; equalities / inequalities / bounds, active or not) with a manufactured
         optimum x*, solved through optyx and by raw SciPy with the hand-written callables from the
@@ -20,8 +26,16 @@ import numpy as np
 import core
 from ser import rat, q
 
-LEAN_MODULE = "Optyx.Props.C09"
+LEAN_MODULE = "Optyx.Props.C09b"
 THEOREMS = [
+    "Optyx.Props.C09b.scipy_inputs_faithful",
+    "Optyx.Props.C09b.compiled_pair_faithful",
+    "Optyx.Props.C09b.con_sign_meaning",
+    "Optyx.Props.C09b.reported_objective",
+    "Optyx.Props.Glue.glue_sources",
+    "Optyx.Props.Glue.glue_call_site",
+    "Optyx.Props.Glue.conRow_table",
+    "Optyx.Props.Glue.scipyConstraint_agrees",
     "Optyx.Props.C09.initialPoint_in_bounds",
     "Optyx.Props.C09.autoSelect_lbfgsb_iff",
     "Optyx.Props.C09.autoSelect_trust_iff",
@@ -492,6 +506,165 @@ def check_vector_objective(rng, rep, methods):
     rep.nontrivial.add(hash(("vecobj", kind, n, tuple(pre), tuple(post))))
 
 
+
+# ------------------------------------------------------------------ third family: _build_solver_cache vs the model
+
+
+def _num_close(a, b, rtol=1e-9, atol=1e-11):
+    import math
+
+    if math.isnan(a) or math.isnan(b) or math.isinf(a) or math.isinf(b):
+        return None  # irregular point: not compared
+    return abs(a - b) <= atol + rtol * max(abs(a), abs(b))
+
+
+def _parse_glue(out: str):
+    """`obj=<f> grad=(f ..) path=<name> cons=((type f (f ..)) ..)` -> dict (floats), or the raw text"""
+    from ser import bits_to_float, parse_sexp
+
+    if not out.startswith("obj="):
+        return out
+    head, rest = out.split(" grad=", 1)
+    gtxt, rest = rest.split(" path=", 1)
+    path, ctxt = rest.split(" cons=", 1)
+    num = lambda t: float("nan") if t == "nan" else bits_to_float(t)
+    cons = []
+    for c in parse_sexp(ctxt)[0]:
+        cons.append((c[0], num(c[1]) if not str(c[1]).startswith("raise") else c[1], [num(t) for t in c[2]]))
+    return {"obj": num(head[4:]), "grad": [num(t) for t in parse_sexp(gtxt)[0]], "path": path, "cons": cons}
+
+
+def check_glue(rng, rep, n_cases):
+    import gen
+    import oracle
+    from ser import Ids, ser, store_text
+    from optyx import Problem
+    from optyx.solvers.scipy_solver import _build_solver_cache
+
+    lines, metas = [], []
+    for _ in range(n_cases):
+        U = gen.Universe(rng, nvec=rng.choice([2, 3]))
+        ids = Ids()
+        is_max = rng.random() < 0.5
+        depth = rng.choice([1, 2, 2, 3])
+        obj = gen.rand_expr(rng, U, depth, safe=True)
+        if not hasattr(obj, "evaluate") or not gen.expr_vars(obj):
+            obj = obj + rng.choice(U.all_vars())
+        P = Problem()
+        (P.maximize if is_max else P.minimize)(obj)
+        cons = []
+        for _k in range(rng.choice([0, 1, 2, 3])):
+            lhs = gen.rand_expr(rng, U, rng.choice([1, 2]), safe=True)
+            rhs = rng.choice([gen.const(rng), gen.rand_expr(rng, U, 1, safe=True)])
+            sense = rng.choice(["<=", ">=", "=="])
+            if not gen.expr_vars(lhs):
+                lhs = lhs + rng.choice(U.all_vars())
+            c = {"<=": lambda: lhs <= rhs, ">=": lambda: lhs >= rhs, "==": lambda: lhs.eq(rhs)}[sense]()
+            P.subject_to(c)
+            cons.append((sense, lhs, rhs))
+        pv = list(P.variables)
+        order = rng.choice(["own", "perm", "super", "super-perm"])
+        V = list(pv)
+        if "super" in order:
+            extra = [v for v in U.all_vars() if all(v.name != w.name for w in V)]
+            rng.shuffle(extra)
+            V += extra[:rng.choice([1, 2, 3])]
+        if "perm" in order:
+            rng.shuffle(V)
+        try:
+            cache = _build_solver_cache(P, V)
+        except Exception as ex:  # noqa: BLE001
+            rep.corr_mismatches.append({"what": "glue: _build_solver_cache raised", "error": repr(ex)[:200]})
+            continue
+        params = U.params
+        for _pt in range(2):
+            point = gen.rand_point(rng, V)
+            x = np.array([point[v.name] for v in V], dtype=float)
+            with np.errstate(all="ignore"), warnings.catch_warnings():
+                warnings.simplefilter("ignore")
+                real = {"obj": float(cache["obj_fn"](x)),
+                        "grad": [float(t) for t in np.asarray(cache["grad_fn"](x)).flatten()],
+                        "path": getattr(cache["grad_fn"], "__name__", "?"),
+                        "cons": [(d["type"], float(d["fun"](x)), [float(t) for t in np.asarray(d["jac"](x)).flatten()])
+                                 for d in cache["scipy_constraints"]]}
+            ctext = " ".join(f"({q(c.sense)} {ser(c.expr, ids)})" for c in P.constraints)
+            from ser import Ser
+            vtext = " ".join(Ser(ids).var(v) for v in V)
+            ptext = " ".join(rat(point[v.name]) for v in V)
+            lines.append(f"glue {'max' if is_max else 'min'} {ser(P.objective, ids)} ({ctext}) ({vtext}) ({ptext}) "
+                         f"{store_text(params, ids)} 400")
+            metas.append((real, order, is_max, len(cons)))
+            rep.evaluations += 1
+            rep.nontrivial.add(("glue", order, is_max, len(cons), real["path"]))
+            rep.histogram["glue:" + order] = rep.histogram.get("glue:" + order, 0) + 1
+            # independent oracle: ± the user's objective / lhs − rhs and their dual-number derivatives
+            sgn = -1.0 if is_max else 1.0
+            try:
+                want = sgn * float(oracle.prim(oracle.ref_eval(obj, point)))
+                ok = _num_close(real["obj"], want)
+                if ok is False:
+                    rep.oracle_failures.append({"glue": "objective handed to SciPy is not ±f", "got": real["obj"],
+                                                "want": want, "order": order, "is_max": is_max,
+                                                "objective": ser(obj, ids), "point": point})
+                for j, v in enumerate(V):
+                    wg = sgn * oracle.ref_grad(obj, point, v.name)
+                    if _num_close(real["grad"][j], wg, 1e-7, 1e-9) is False:
+                        rep.oracle_failures.append({"glue": "gradient entry is not the partial derivative of ±f",
+                                                    "j": j, "var": v.name, "got": real["grad"][j], "want": wg,
+                                                    "order": order, "objective": ser(obj, ids), "point": point})
+                        break
+                for k, (sense, lhs, rhs) in enumerate(cons):
+                    cs = -1.0 if sense == "<=" else 1.0
+                    rv = rhs if isinstance(rhs, (int, float)) else None
+                    diff = lambda vals: oracle.ref_eval(lhs, vals) - (rv if rv is not None else oracle.ref_eval(rhs, vals))
+                    typ, fv, jv = real["cons"][k]
+                    if typ != ("eq" if sense == "==" else "ineq"):
+                        rep.oracle_failures.append({"glue": "constraint type", "k": k, "sense": sense, "got": typ})
+                    wv = cs * float(oracle.prim(diff(point)))
+                    if _num_close(fv, wv) is False:
+                        rep.oracle_failures.append({"glue": "constraint fun is not ±(lhs − rhs)", "k": k, "sense": sense,
+                                                    "got": fv, "want": wv, "lhs": ser(lhs, ids), "point": point})
+                    for j, v in enumerate(V):
+                        vals = {n: (oracle.Dual(t, 1.0) if n == v.name else t) for n, t in point.items()}
+                        r = diff(vals)
+                        wj = cs * (oracle.prim(r.d) if isinstance(r, oracle.Dual) else 0.0)
+                        if _num_close(jv[j], wj, 1e-7, 1e-9) is False:
+                            rep.oracle_failures.append({"glue": "constraint jac is not the derivative of its fun", "k": k,
+                                                        "j": j, "var": v.name, "got": jv[j], "want": wj, "sense": sense,
+                                                        "lhs": ser(lhs, ids), "point": point, "order": order})
+                            break
+            except (oracle.NotRegular, ZeroDivisionError, OverflowError, ValueError):
+                rep.skipped["glue: irregular point"] = rep.skipped.get("glue: irregular point", 0) + 1
+    outs = core.run_lean(lines)
+    for line, (real, order, is_max, ncons), out in zip(lines, metas, outs):
+        model = _parse_glue(out)
+        if not isinstance(model, dict):
+            rep.corr_mismatches.append({"what": "glue: model did not build the cache", "model": out, "line": line[:400]})
+            continue
+        bad = None
+        if model["path"] != real["path"]:
+            bad = f"gradient closure kind: impl {real['path']} model {model['path']}"
+        elif _num_close(real["obj"], model["obj"]) is False:
+            bad = f"objective value: impl {real['obj']} model {model['obj']}"
+        elif len(real["grad"]) != len(model["grad"]) or any(_num_close(a, b) is False for a, b in zip(real["grad"], model["grad"])):
+            bad = f"gradient: impl {real['grad']} model {model['grad']}"
+        elif len(real["cons"]) != len(model["cons"]):
+            bad = f"number of constraint dictionaries: impl {len(real['cons'])} model {len(model['cons'])}"
+        else:
+            for k, (rc, mc) in enumerate(zip(real["cons"], model["cons"])):
+                if rc[0] != mc[0]:
+                    bad = f"constraint {k} type: impl {rc[0]} model {mc[0]}"
+                elif isinstance(mc[1], str) or _num_close(rc[1], mc[1]) is False:
+                    bad = f"constraint {k} fun: impl {rc[1]} model {mc[1]}"
+                elif len(rc[2]) != len(mc[2]) or any(_num_close(a, b) is False for a, b in zip(rc[2], mc[2])):
+                    bad = f"constraint {k} jac: impl {rc[2]} model {mc[2]}"
+                if bad:
+                    break
+        if bad:
+            rep.corr_mismatches.append({"what": "glue: _build_solver_cache differs from Py.Glue.buildSolverCache: " + bad,
+                                        "order": order, "is_max": is_max, "line": line[:600]})
+
+
 def run(ctx) -> core.Report:
     rng = ctx["rng"]
     thorough = ctx["tier"] == "thorough" or ctx["escalate"]
@@ -504,6 +677,7 @@ def run(ctx) -> core.Report:
         check_problem(rng, p, rep, lines, metas, METHODS)
     for i in range(150 if thorough else 30):
         check_vector_objective(rng, rep, METHODS)
+    check_glue(rng, rep, 700 if thorough else 120)
     # dispatch table of Problem.solve: exhaustive over method names × linearity, against the model
     from optyx import Problem, Variable
     x = Variable("x", lb=0, ub=4)
@@ -539,6 +713,9 @@ def run(ctx) -> core.Report:
 def search(ctx, rep):
     rng = core.Rng(ctx["seed"] + 15485863)
     r2 = core.Report()
+    check_glue(rng, r2, 400)
+    if r2.oracle_failures:
+        return r2.oracle_failures[0]
     for i in range(600):
         p = gen_problem(rng)
         check_problem(rng, p, r2, [], [], METHODS)
